@@ -311,25 +311,27 @@ func runDial(t *testing.T, ksc KScenario, res *KResult) {
 		}
 		// ---- C02: the dial works (or the injected faults explain the failure)
 		if cp.err != nil || !cp.echoOK {
-			if len(w.Log[0]) == sentBefore {
-				// nothing left the client: the spec was rejected up front (allowed by C09; a C02 matter only for specs of the claimed family)
-				// (a layout that cannot carry the ClientHello - a single-frame builder with a multi-datagram
-				// ClientHello - is rightly rejected: C09; only specs whose builder can split are claimed here)
-				d := sc.Cfg.Derive
-				multi := (d != nil && d.PadCH > 0) || strings.HasPrefix(sc.Cfg.Client, "chrome146") // ClientHello needs several datagrams
-				feasible := d == nil || !multi || d.Builder == "random" || d.Builder == "multi" ||
-					((d.Builder == "" || d.Builder == "keep") && strings.HasPrefix(sc.Cfg.Client, "chrome"))
-				if feasible && cp.err != nil && strings.Contains(cp.err.Error(), "does not fit the packet buffer") {
-					// header (token, connection IDs) plus the builder's fixed Length exceed a packet: the spec cannot be laid out
-					// and is rightly rejected before anything is sent
-					feasible = false
-				}
-				if feasible {
-					report("C02", "dial with a built-in or derived spec rejected before anything was sent", "dial #%d: %v", di, cp.err)
-				} else {
-					res.Probe("unlayoutable-spec-rejected-before-send")
-				}
-			} else {
+			// Can the spec be laid out at all? A single-frame or fixed-layout builder cannot carry a ClientHello that needs
+			// several datagrams, and a fixed Length plus a long header may not fit a packet: such a spec is rightly
+			// rejected (C09 wants that to happen before anything is sent); only the rest of the family is claimed by C02.
+			d := sc.Cfg.Derive
+			multi := (d != nil && d.PadCH > 0) || strings.HasPrefix(sc.Cfg.Client, "chrome146")
+			feasible := d == nil || !multi || d.Builder == "random" || d.Builder == "multi" ||
+				((d.Builder == "" || d.Builder == "keep") && strings.HasPrefix(sc.Cfg.Client, "chrome"))
+			nothingSent := len(w.Log[0]) == sentBefore
+			if feasible && nothingSent && cp.err != nil && strings.Contains(cp.err.Error(), "does not fit the packet buffer") {
+				feasible = false
+			}
+			var te *quic.TransportError
+			packerError := errors.As(cp.err, &te) && !te.Remote && te.ErrorCode == 1 && strings.Contains(te.ErrorMessage, "QUICFrames:")
+			switch {
+			case !feasible && nothingSent:
+				res.Probe("unlayoutable-spec-rejected-before-send")
+			case !feasible && packerError:
+				report("C09", "configuration that cannot be laid out was rejected only after part of the flight had been sent", "dial #%d: %v", di, cp.err)
+			case nothingSent:
+				report("C02", "dial with a built-in or derived spec rejected before anything was sent", "dial #%d: %v", di, cp.err)
+			default:
 				pre := res.Violation
 				judgeFailure(w, &sc.Cfg, &sc.Net, len(sc.Faults), res, cp.err, nil, true, horizon)
 				if res.Violation != pre && !on["C02"] && !on["all"] {
